@@ -378,6 +378,18 @@ def run(tier):
         prog = scriptgen.gen_program(r, max_depth=3)
         cases.append(('structured', {'text': scriptgen.program_text(prog)}))
 
+    # arguments / variables that are assigned on a path that a call may skip, textually before their first read
+    for guard_ in ('if b:', 'if b && true:', 'while b:'):
+        for setter in ('a = 20', 'a = a + 5'):
+            for tail in ('return a', "systemLog('a=' + a)\n    return arrayNew(a, b)"):
+                end = 'endif' if guard_.startswith('if') else 'endwhile'
+                extra = '' if guard_.startswith('if') else '\n        b = false'
+                text = (f"function pa(a, b):\n    {guard_}\n        {setter}{extra}\n    {end}\n    {tail}\nendfunction\n"
+                        "systemLog('r ' + pa(1, false))\nsystemLog('s ' + pa(1, true))\nreturn pa(x, y)\n")
+                cases.append(('assigned-on-a-path', {'text': text}))
+    cases.append(('assigned-on-a-path', {'text': "function pb(a, b):\n    jumpif (b) skip\n    a = 7\n    skip:\n    return a\nendfunction\n"
+                                                 "return arrayNew(pb(1, true), pb(1, false), pb(x, y))\n"}))
+
     import time as _t
     t0 = _t.time()
     lint_res = core.run_impl('c18_lint', [c for _, c in cases])
